@@ -236,7 +236,10 @@ def check_detection(run, bp):
 
 CFGS = [Cfg(max_depth=3), Cfg(max_depth=4, quant_unbounded=True), Cfg(max_depth=2, share=10),
         Cfg(max_depth=3, theories={"bool", "int", "real", "str", "bv"}),
-        Cfg(max_depth=3, theories={"bool", "int", "real", "quant", "uf"}, pow=True, quant_unbounded=True)]
+        Cfg(max_depth=3, theories={"bool", "int", "real", "quant", "uf"}, pow=True, quant_unbounded=True),
+        # instances of parametric sorts: declaring a symbol of sort (P S2 Int) needs the Int sort
+        Cfg(max_depth=3, theories={"bool", "sort", "uf", "arr", "quant"},
+            sorts=["S1", "L{S1}", "P{S2, Int}", "L{Real}", "L{L{String}}"])]
 
 
 def shard_detect(shard, seed, n):
